@@ -1,6 +1,7 @@
 package main
 
 import (
+	"encoding/hex"
 	"context"
 	"errors"
 	"fmt"
@@ -115,15 +116,35 @@ func (b *kvBackend) ver(s string) string {
 	return "never-issued-" + s
 }
 
+// value tokens: "-" empty, "#<hex>" arbitrary bytes (binary, ill-formed UTF-8), "L<n>" a text of n bytes, else the text itself
 func kvVal(s string) []byte {
 	if s == "-" {
 		return nil
+	}
+	if strings.HasPrefix(s, "#") {
+		b, err := hex.DecodeString(s[1:])
+		if err == nil {
+			return b
+		}
+	}
+	if strings.HasPrefix(s, "L") {
+		if n, err := strconv.Atoi(s[1:]); err == nil && n > 0 {
+			return []byte(strings.Repeat("v", n))
+		}
 	}
 	return []byte(s)
 }
 func kvShowVal(v []byte) string {
 	if len(v) == 0 {
 		return "-"
+	}
+	if len(v) > 40 && strings.Count(string(v), "v") == len(v) {
+		return fmt.Sprintf("L%d", len(v))
+	}
+	for _, c := range v {
+		if c < 0x21 || c > 0x7e || c == ':' || c == ',' || c == '|' || c == '#' {
+			return "#" + hex.EncodeToString(v)
+		}
 	}
 	return string(v)
 }
@@ -449,6 +470,11 @@ func kvKeysOf(w []string) []string {
 func kvGen(ctx *Ctx, n int, redisOK bool, keys []string) []string {
 	r := ctx.Rnd
 	vals := []string{"x", "y", "-", "zz"}
+	if r.Chance(1, 4) {
+		// binary values, ill-formed UTF-8, values around the 127/128-byte mark (a backend's encoding of the record is
+		// not text: nothing on the way to the server may treat it as such)
+		vals = []string{"x", "#ff", "#c328", "#00", "L127", "L128", "L300", "-", "#e282"}
+	}
 	pats := []string{"*", "a*", "?", "a?", "b", "*b", "a*b", "??", "zz*", "a", "ab", "zz/1"}
 	if len(keys) > 0 && keys[0] == "a/b" {
 		pats = []string{"*", "a*", "a/*", "*b", "a/b", "a//b", "a/b/", "a/?/b", "a/b?", "*/"}
